@@ -860,6 +860,10 @@ func genC07(c *c07Case, r *rand.Rand) {
 			name = pick(r, []string{"case_n", "lowercase", "ordered", "limits", "endv", "whenever", "thence", "nullable", "likes", "grouped", "elsewhere", "distinctive"}) + fmt.Sprint(i+1)
 		}
 		text := e.sql(c.Tight, c.Upper) + " AS " + name
+		if r.Intn(10) == 0 {
+			// the alias written as a back-quoted name (the quotes are not part of the column's name)
+			text = e.sql(c.Tight, c.Upper) + " AS `" + name + "`"
+		}
 		c.Items = append(c.Items, &c07Item{Name: name, Shape: shape, Expr: e, Text: text})
 	}
 	if c.Mode == "counting" || (!c.Distinct && r.Intn(3) == 0) {
